@@ -196,8 +196,7 @@ class Canon:
                 if g is not None and g.body is not None and (s.get("callee") or {}).get("const") and g is not self.fn \
                         and (s.get("callee") or {}).get("n") not in NO_INLINE:
                     st = [x for x in (g.body.get("c") or []) if x.get("k") != "NullStmt"]
-                    if len(st) == 1 and st[0].get("k") == "ReturnStmt" and st[0].get("value") is not None and \
-                            not any(x.get("k") in ("CallExpr", "CXXMemberCallExpr") for x in walk(st[0]["value"])):
+                    if len(st) == 1 and st[0].get("k") == "ReturnStmt" and st[0].get("value") is not None:
                         sub = Canon(g, uniform=self.uniform)
                         sub._depth = self._depth + 1
                         txt = sub.c(st[0]["value"])
